@@ -63,7 +63,8 @@ def plan(tier, seed):
     # failsweep: EVERY 16-bit Thumb word, and a sweep of the 32-bit Thumb space, executed in an IT slot whose condition fails: nothing may happen
     fs = lambda n16, rep32: ([{'k': 'failsweep16', 'slice': i, 'of': 64, 'ctx': c} for c in range(n16) for i in range(64)] +
                              [{'k': 'failsweep32', 'slice': i, 'rep': rep32} for i in range(0, 384, 8)] +
-                             [{'k': 'failsweepC', 'slice': i, 'of': 8} for i in range(8)])           # the example words of every Thumb opcode class (sim/classwords.json)
+                             [{'k': 'failsweepC', 'slice': i, 'of': 8} for i in range(8)] +          # the example words of every Thumb opcode class (sim/classwords.json)
+                             [{'k': 'trapsweep', 'rep': i} for i in range(max(8, n16 * 8))])        # Hyp traps taken from inside IT blocks
     if tier == 'quick':
         return [{'c': i, 'rep': 0} for i in range(len(_CELLS))] + [{'c': i, 'rep': 1} for i in range(len(_CELLS))] + fs(1, 48)
     items = fs(6, 512)
@@ -176,6 +177,76 @@ def gen_failsweep(item, rng):
     return {'scenario': 'failsweep', 'cores': [core], 'events': [], 'max_ticks': len(words) + 2, 'stop_at_done': False, 'cond': cond, 'nzcv': nzcv, 'mask': mask}
 
 
+def gen_trapsweep(item, rng):
+    """Hyp traps taken from inside IT blocks (Virtualization Extensions, Non-secure PL1/PL0): WFI/WFE under HCR.TWI/TWE, CP15/CP14 accesses under
+    HSTR, coprocessor accesses under HCPTR, SMC under HCR.TSC and BXJ under HSTR.TJDBX, each executed in a slot whose condition PASSES, at every
+    position of the block.  The emulator takes these exceptions by a direct call from inside execute(): what runs after that call returns (IT
+    advance, PC increment, the rest of the instruction) must not touch the state the entry left - ITSTATE zero, SPSR_hyp with the IT state of the
+    trapped instruction.  The regime is re-installed before every tick, so every word meets the same Non-secure state"""
+    cfg = {'arch_version': 7, 'have_security_ext': True, 'have_virt_ext': True, 'have_lpae': False, 'memory_system_architecture': 'VMSA'}
+    devices = G.std_devices()
+    nzcv = rng.getrandbits(4)
+    mode = rng.choice(['usr', 'svc', 'svc', 'irq', 'sys'])
+    cpsr = (G.random_cpsr(rng, cfg, mode=mode, thumb=1, e=0) & 0x0FFFFFFF) | nzcv << 28
+    sys = {'sctlr': G.sctlr_value(m=0, a=0, u=1, te=1), 'scr': 1 | rng.getrandbits(2) << 4, 'hcr': 1 << 13 | 1 << 14 | 1 << 19, 'hstr': 0xFFFF | 1 << 16 | 1 << 17,
+           'hcptr': 0x33FF, 'nsacr': 0x3FFF | 1 << 19, 'cpacr': 0x0FFFFFFF, 'hsctlr': rng.getrandbits(1) << 30, 'hvbar': G.LOW + 0x600}
+    regs = {'cpsr': cpsr, 'pc': G.CODE + 4 * rng.randrange(0, 64), 'sys': sys, 'R': G.random_regfile(rng, cfg), 'spsr': G.random_spsrs(rng, cfg, valid=True),
+            'event_register': False}
+    passing = [c for c in range(14) if IT.cond_passed(c, nzcv)] + [14]
+    w16 = lambda h: h << 16 | 0xBF00
+    inner = [w16(T.hint(3)), w16(T.hint(2)), 0xF3AF8003, 0xF3AF8002,                                   # WFI, WFE, WFI.W, WFE.W
+             0xEE010F10, 0xEE110F10, 0xEE070F15, 0xEE1D0F70, 0xEC510F02,                                # MCR/MRC p15 (c1, c7, c13), MRRC p15
+             0xEE001E10 | 6 << 21, 0xEE100E10 | 6 << 21 | 1 << 16,                                     # MCR/MRC p14, 6 (ThumbEE registers)
+             0xEE000100, 0xEE010210, 0xEE110210, 0xED900300, 0xEC410402]                                # CDP p1, MCR/MRC p2, LDC p3, MCRR p4
+    last = [0xF7F08000 | rng.getrandbits(4) << 16, 0xF3C08F00 | rng.randrange(0, 13) << 16]           # SMC, BXJ: only as the last instruction of a block
+    words, its = [], []
+    for _ in range(48):
+        mask = rng.choice([4, 0xC, 2, 6, 0xA, 0xE, 1, 3, 5, 7, 9, 0xB, 0xD, 0xF, 8, 8])
+        cond = rng.choice(passing)
+        if cond == 14:
+            mask = rng.choice([8, 4, 2, 1])
+        words.append(rng.choice(inner + (last if mask == 8 else [])))
+        its.append(cond << 4 | mask)
+    events = [{'tick': t, 'core': 0, 'kind': 'regime', 'regs': dict(regs, cpsr=(cpsr & ~0x0600FC00) | (its[t] & 3) << 25 | (its[t] >> 2) << 10)} for t in range(1, len(words))]
+    regs['cpsr'] = (cpsr & ~0x0600FC00) | (its[0] & 3) << 25 | (its[0] >> 2) << 10
+    core = {'config': cfg, 'devices': devices, 'regs': regs, 'words': words, 'force': None, 'no_poke': []}
+    return {'scenario': 'trapsweep', 'cores': [core], 'events': events, 'max_ticks': len(words) + 2, 'stop_at_done': False, 'nzcv': nzcv}
+
+
+class TrapObserver:
+    def __init__(self, mon):
+        self.mon = mon
+
+    def on_tick(self, b, rec):
+        if rec['what'] != 'step':
+            return
+        kinds = [k for t, k in self.mon.taken if t == rec['tick']]
+        arm = b.cores[0].arm
+        name = type(arm.executed_opcode).__name__
+        site = name[:-2] if name[-2:] in ('A1', 'A2', 'T1', 'T2', 'T3', 'T4') else name
+        if 'hyptrap' in kinds:
+            b.count('fault.hyp-trap-in-it-block')
+            b.cover.add('trapsweep|%s|%x|%s' % (site, (rec['pre'][1] >> 10) & 0xF and 1, 'nie' if rec['nie'] else 'done'))
+            post = rec['post'][1]
+            if not rec['exc'] and (((post >> 8) & 0xFC) | ((post >> 25) & 3)):
+                # (also when the step ended in a declared-unimplemented hook after the trap: the Hyp handler must not inherit an IT state)
+                b.violate('it.entry_model', site, 'itstate_not_cleared', '%s (word %#x) trapped to Hyp mode from ITSTATE %#x: the handler starts with ITSTATE %#x' % (
+                    name, arm.opcode, ((rec['pre'][1] >> 8) & 0xFC) | ((rec['pre'][1] >> 25) & 3), ((post >> 8) & 0xFC) | ((post >> 25) & 3)))
+        else:
+            b.cover.add('~trapsweep-no-trap|%s' % site)
+
+
+def run_trapsweep(case):
+    from sim.stream import StreamBoard
+    p0 = M.env.print_count[0]
+    b = StreamBoard(case, [])
+    mon = EntryMonitor(b, 0, report=True, oracle='it.entry_model')
+    b.observers = [mon, TrapObserver(mon)]
+    b.run()
+    b.count('prints', M.env.print_count[0] - p0)
+    return {'violations': b.violations, 'cover': b.cover, 'stats': b.stats, 'ticks': b.tick, 'digest': b.digest(), 'interesting': bool(b.violations)}
+
+
 class FailObserver:
     """every tick starts in an IT slot whose condition fails: the instruction must do nothing (or be rejected as undefined / unimplemented)"""
 
@@ -230,6 +301,8 @@ def gen(item, rng, tier):
     global _CELLS
     if item.get('k') in ('failsweep16', 'failsweep32', 'failsweepC'):
         return gen_failsweep(item, rng)
+    if item.get('k') == 'trapsweep':
+        return gen_trapsweep(item, rng)
     if _CELLS is None:
         _CELLS = cells()
     f, mask, nzcv, kind = _CELLS[item['c']]
@@ -654,6 +727,8 @@ def run_one(case, ideal):
 def run(case):
     if case['scenario'] == 'failsweep':
         return run_failsweep(case)
+    if case['scenario'] == 'trapsweep':
+        return run_trapsweep(case)
     p0 = M.env.print_count[0]
     meta = case['meta']
     bB, oB = run_one(case, False)
@@ -690,6 +765,8 @@ def run(case):
 
 
 def sample(case, res):
+    if case['scenario'] == 'trapsweep':
+        return {'scenario': 'trapsweep', 'nzcv': case['nzcv'], 'words': ['%08x' % w for w in case['cores'][0]['words'][:8]], 'violations': res['violations'][:2]}
     if case['scenario'] == 'failsweep':
         return {'scenario': 'failsweep', 'cond': case['cond'], 'nzcv': case['nzcv'], 'mask': case['mask'], 'n_words': len(case['cores'][0]['words']),
                 'words': ['%08x' % w for w in case['cores'][0]['words'][:8]], 'violations': res['violations'][:2]}
@@ -700,6 +777,17 @@ def sample(case, res):
 
 
 def shrink(case):
+    if case['scenario'] == 'trapsweep':
+        # keep only the violating tick: its word and the regime installed before it
+        res = run(case)
+        if res['violations']:
+            t = res['violations'][0].get('tick', 0)
+            core = case['cores'][0]
+            if 0 < t < len(core['words']):
+                ev = [e for e in case['events'] if e['tick'] == t]
+                if ev:
+                    yield dict(case, cores=[dict(core, regs=ev[0]['regs'], words=[core['words'][t]])], events=[], max_ticks=3)
+        return
     if case['scenario'] == 'failsweep':
         words = case['cores'][0]['words']
         res = run(case)
